@@ -68,6 +68,7 @@ func TestC18BoundedSampleGrid(t *testing.T) {
 		{1, 1, 1, 1}, {3, 1, 2, 3}, {-1e30, 1e30, 0}, {math.MaxFloat32, math.MaxFloat32, -math.MaxFloat32},
 		{0.1, 0.2, 0.3, 0.4, 0.5, 0.6, 0.7, 0.8}, {-inf, 5, -inf, 5, -inf}, {1e-45, 0, -1e-45},
 		{100, -100, 50, -50, 0, 100}, {inf, 1, 2}, {-3, -2, -1},
+		{3e38, 0}, {0, 3e38, 1e38}, {-3e38, 3e38}, {3e38, 3e38, -inf}, {1e32, 1e31, 0}, {inf, inf, 0}, {-3e38, -inf},
 	}
 	temps := []float32{0, 1e-9, 0.5, 1, 2, 100}
 	topKs := []int{-1, 0, 1, 2, 3, 1000}
@@ -77,9 +78,13 @@ func TestC18BoundedSampleGrid(t *testing.T) {
 	n := 0
 	for _, logits := range vectors {
 		someFinite := false
+		anyNaN := false
 		maxLogit := float32(math.Inf(-1))
 		for _, l := range logits {
-			if !math.IsInf(float64(l), 0) {
+			if l != l {
+				anyNaN = true
+			}
+			if !math.IsInf(float64(l), 0) && l == l {
 				someFinite = true
 			}
 			if l > maxLogit {
@@ -109,6 +114,11 @@ func TestC18BoundedSampleGrid(t *testing.T) {
 								if errs[i] != nil {
 									if id != -1 {
 										t.Fatalf("REPRODUCED: error with id %d", id)
+									}
+									// "always returns a token id ... whenever some logit is finite": an
+									// error is admissible only when no logit is finite (or one is NaN)
+									if someFinite && !anyNaN {
+										t.Fatalf("REPRODUCED: no token although some logit is finite: %v (logits %v temp %v k %d p %v minp %v seed %d)", errs[i], logits, temp, k, p, mp, seed)
 									}
 									continue
 								}
